@@ -58,3 +58,13 @@ func VerifElectionKeys(cfgs []syncer.SyncerConfig) (keys []string, ids []string)
 	runWait.WgWait()
 	return rec.keys, rec.ids
 }
+
+// VerifRunCluster runs the real runCluster of one instance until every per-shard loop has ended.
+func VerifRunCluster(runWait usync.WaitCloser, cli cluster.Cluster, cfgs []syncer.SyncerConfig) {
+	sc := &SyncerCmd{
+		logger:  log.WithLogger(config.LogModuleName("[SyncerCommand] ")),
+		syncers: make(map[string]syncerInfo),
+	}
+	sc.runCluster(runWait, cli, cfgs)
+	runWait.WgWait()
+}
